@@ -57,7 +57,8 @@ func main() {
 	}
 	c := newCtx()
 	c.emit("N", map[string]interface{}{"msg": "config", "detail": observedConfig()})
-	if c.Batch == 0 && c.Only < 0 && c.Start == 0 {
+	if c.Batch == 0 && c.Only < 0 && c.Start == 0 && os.Getenv("SONIC_SYNC_GC") == "" {
+		// (not under SONIC_SYNC_GC: a collection between all opcodes makes the looping witnesses take minutes)
 		// witnesses of repaired defects of this property: they must stay repaired
 		for _, id := range regressions[c.Prop] {
 			if rep, what := witnesses[id](); rep {
